@@ -340,7 +340,7 @@ func init() {
 		MinNontrivial: 2000,
 		Streams: []Stream{
 			{Name: "grid", Setup: c17Setup, N: c17GridN, Run: c17Grid, Exhaustive: true},
-			{Name: "random", N: func(c *Ctx) int { return tierN(c, 30000, 500000) }, Run: c17Random},
+			{Name: "random", N: func(c *Ctx) int { return tierN(c, 30000, 2000000) }, Run: c17Random},
 		},
 	})
 }
